@@ -278,6 +278,22 @@ def _thread_independent_value(f, n):
     return True
 
 
+def _pure_memo(f, n):
+    """`D[key] = value` where the value is built only from the key's own names and constants"""
+    if not isinstance(n, ast.Assign):
+        return False
+    subs = [t for t in n.targets if isinstance(t, ast.Subscript)]
+    if len(subs) != 1 or not all(isinstance(t, (ast.Subscript, ast.Name)) for t in n.targets):
+        return False
+    key = subs[0].slice
+    if not (isinstance(key, ast.Name) or (isinstance(key, ast.Tuple) and all(isinstance(e, ast.Name) for e in key.elts))):
+        return False
+    keyn = names_loaded(key)
+    valn = {x.id for x in ast.walk(n.value) if isinstance(x, ast.Name)}
+    calls_ = [x for x in ast.walk(n.value) if isinstance(x, (ast.Call, ast.Attribute, ast.Subscript))]
+    return valn <= keyn and not calls_
+
+
 def request_derived(f, exprs, at):
     """some expression derives from a parameter of the function (other than self/cls), from the request objects or from the
     result of calling a parameter (stream reads)"""
@@ -297,7 +313,7 @@ CONFIG_TIME_FUNCS = {'add_hook', 'remove_hook', 'on', 'on_route', 'remove_route_
                      'remove', 'setup', 'make_filter', 'parse_rule', 'iter_parse', '_iter_parse', '_parse_param', 'hook_installer'}
 
 
-def check_shared_writes(P, R, rid, strict=False, same_for_all_threads_ok=False, skip_config_time=False):
+def check_shared_writes(P, R, rid, strict=False, same_for_all_threads_ok=False, skip_config_time=False, skip_kinds_prefix=(), pure_memo_ok=False):
     """strict=True (C08 / C10): every write to a location that outlives the request must be in the frozen table.
     strict=False (C09): only writes that carry request-derived data into such a location and are not preceded, on every
     path, by a reset of that location (scratch use) - i.e. the ones that can carry data into a later request or grow."""
@@ -310,6 +326,10 @@ def check_shared_writes(P, R, rid, strict=False, same_for_all_threads_ok=False, 
         ok = key in SHARED_WRITE_TABLE
         if not ok and skip_config_time and f.name in CONFIG_TIME_FUNCS:
             continue   # registration / configuration API: not executed while serving a request
+        if not ok and any(w['target'].startswith(p_) for p_ in skip_kinds_prefix):
+            continue
+        if not ok and pure_memo_ok and _pure_memo(f, w['node']):
+            continue   # value determined by the key alone: every writer stores an equal value (retention is C09's concern)
         detail = ''
         if not ok and not strict:
             n = w['node']
